@@ -57,10 +57,15 @@ PROPS["C06"] = {
 PROPS["C07"] = {
     "level": "exploration",
     "rule": "rapidcheck-generated (catalogue entry x channels x N x sample type/style x two independent partitions P, Q into write calls with item/frame mixes, Q optionally with SFC_UPDATE_HEADER_NOW after calls x two pinned clock values); "
-            "oracle: bytes(P,t1) == bytes(Q,t1), bytes(P,t1) == bytes(P,t2) after masking the PEAK timestamp (and the MAT5 header date text); non-trivial = N >= 1, P != Q and a call boundary not aligned to the codec block; distinct = hash of (format, channels, N, type, P, Q)",
+            "oracle: bytes(P,t1) == bytes(Q,t1), bytes(P,t1) == bytes(P,t2) after masking the PEAK timestamp (and the MAT5 header date text); the same call sequence is run twice on heaps with different histories (second stage: allocator without fill and quarantine) and must give the same bytes; non-trivial = N >= 1, P != Q and a call boundary not aligned to the codec block; distinct = hash of (format, channels, N, type, P, Q)",
     "assumptions": BASE_ASSUME + ["the process clock is pinned by linking the harness with --wrap=time,gettimeofday; 'another process' is approximated by a second run in the same process with a different clock value (process isolation proper is C19)"],
     "stages": [
         {"bin": "c07", "quick": {"cases": 10000, "workers": 16, "budget": 150}, "thorough": {"cases": 40000, "workers": 16, "budget": 1200}},
+        # second pass with an allocator that hands freed blocks straight back, unfilled (see C19): output bytes that come from uninitialised
+        # heap memory differ between the two runs of the same calls, because the harness gives the heap another history in between
+        {"bin": "c07", "tag": "_reuse", "no_replays": True,
+         "env": {"ASAN_OPTIONS": "detect_leaks=1:abort_on_error=0:exitcode=99:allocator_may_return_null=1:detect_stack_use_after_return=0:max_malloc_fill_size=0:quarantine_size_mb=0:thread_local_quarantine_size_kb=0"},
+         "quick": {"cases": 3000, "workers": 16, "budget": 150}, "thorough": {"cases": 20000, "workers": 16, "budget": 1200}},
     ],
 }
 PROPS["C11"] = {
@@ -105,7 +110,7 @@ PROPS["C20"] = {
     "engine": "enumeration + rapidcheck",
     "technique": "exhaustive enumeration of code spaces against independent reference implementations (G.711, IEEE-754 bit patterns, byte swaps) and property-based testing of the ADPCM block decoders against reference decoders",
     "rule": "enumeration: all 256 G.711 codes through the 4 read types and all 65536 16-bit inputs through the 4 write types for mu-law and A-law (decode table == ITU-T G.711 formulas, encode = interval quantiser, enc(dec(c)) == c, and the int image x << 16 of every 16-bit value gets exactly the code the short gets); every normal float32 exponent (254) x both signs x {69 mantissa edge patterns + 32K stratified mantissas (quick) | all 2^23 mantissas (thorough)} x both byte orders x read and write through the portable serialisers (SFC_TEST_IEEE_FLOAT_REPLACE); every normal double exponent (2046) x both signs x 4096 (quick) / 2^19 (thorough) mantissas likewise; ENDSWAP_16 for all 2^16 inputs, 32/64-bit swaps and psf_get/put helpers on bit walks + 200K random words; "
-            "rapidcheck: WAV/W64 IMA, WAV/W64 MS ADPCM and AIFF ima4 files whose block bytes are generated (random, all-00/FF/77/88 nibbles, adversarial headers: extreme predictors, step index 0..88 and illegal, MS predictor 0..6 and illegal) for the writer's block sizes 256/512/1024/2048 (34 for ima4), 1-2 channels, decoded through the API and compared sample-exact with independent reference decoders; every enumerated pattern counts as distinct and non-trivial (counted), ADPCM cases are distinct by hash of the case",
+            "rapidcheck: WAV/W64 IMA, WAV/W64 MS ADPCM and AIFF ima4 files whose block bytes are generated (random, all-00/FF/77/88 nibbles, adversarial headers: extreme predictors, step index 0..88 and illegal, MS predictor 0..6 and illegal) for the writer's block sizes 256/512/1024/2048 (34 for ima4), 1-2 channels, decoded through the API and compared sample-exact with independent reference decoders; every enumerated pattern counts as distinct and encode-after-decode identity through all four entry types, the level 0 as G.711 positive zero; non-trivial (counted), ADPCM cases are distinct by hash of the case",
     "assumptions": BASE_ASSUME + ["G.711 encode oracle: the sign-magnitude input lies in the quantisation interval of the level it is mapped to, allowing for the 2 (mu-law) / 3 (A-law) low bits libsndfile drops when reducing 16-bit input to 14/13 bits - the statement's 'nearest level' is not what G.711 itself does at segment boundaries (DESIGN Corrections)",
                                   "MS ADPCM reference uses an arithmetic shift for the /256 of the predictor (the SoX/libsndfile family); headers outside the format definition (step index > 88, MS predictor >= 7, negative or overflowing delta) only get the memory-safety check",
                                   "thorough tier enumerates all 2^32 float patterns with a normal exponent; quick is a stratified 2^24 subset"],
@@ -232,7 +237,7 @@ PROPS["C19"] = {
             "read ops: typed sf_readf of 0..2000 frames, sf_seek with every whence incl. out-of-range targets, sf_get_string, SFC_CALC_SIGNAL_MAX, norm/scale/clipping settings; write ops: typed sf_writef of 0..3000 frames (all sample styles, arbitrary finite float bit patterns for float codecs), sf_set_string, SFC_UPDATE_HEADER_NOW, SFC_TEST_IEEE_FLOAT_REPLACE on/off, settings; "
             "merge of the scripts' steps {random, round robin, one after the other (= earlier library use), bursts}, and every merge (<= 300) of two short scripts; "
             "oracle: per-script transcript (return value, digest of returned data, sf_error(handle) after every call, sf_error(NULL)/sf_strerror(NULL) right after the script's own open, close status) and the final bytes of its backing store equal the transcript of the same script run alone; fixtures, every solo run and every interleaved run happen in a forked child of their own, the parent never opens a file; "
-            "non-trivial = at least two scripts that moved audio data; distinct = hash of the case",
+            "one case in six puts every script on a different variant of one codec family in one container (NMS 16/24/32, G.721/G.723, ALAC, DWVW, ...); non-trivial = at least two scripts that moved audio data; distinct = hash of the case",
     "assumptions": BASE_ASSUME + ["single-threaded interleavings only (the property says so)",
                                   "the clock is pinned, so the time-seeded generator behind ALAC temp-file names starts equal in every child",
                                   "VOX item counts are kept even (see KF-vox-odd-count)",
@@ -335,7 +340,7 @@ PROPS["C03"] = {
     "rule": "stage 0 (enumerated): every seed file (catalogue entry x {1,2} channels, plus metadata-rich variants of WAV/WAVEX/RF64/AIFF/CAF/W64 carrying strings, bext, cart, cue, smpl/INST, chan, PEAK and custom chunks, an AIFF variant with MARK chunk, and hand-built variants with block / chunk types the library never writes: VOC ASCII / marker / repeat / silence blocks, WAV acid / PAD / LIST adtl / exif / DISP / levl ..., AIFF COMT / APPL / INST / basc / MIDI, SVX text / CHAN / envelope chunks, CAF free / uuid / mark / strg ...) x mutation {none, truncate, truncate + flipped header byte, zero/0xFF a 4-byte field, flip a byte, set a field to 24 boundary constants in both byte orders, swap adjacent chunks, inflate a chunk size with and without truncation} x position {every byte of the first 96 (2600 for rich seeds), every chunk boundary +-1, 20 evenly spaced, the tail} with a derived 4-8 op script and route {virtual I/O 70 %, memfd descriptor, pipe}; "
             "stage 1 (libFuzzer, coverage-guided, fork mode): input = file bytes || <= 24 ops || control (route, RAW SF_INFO with 16 encodings), seeded corpus + dictionary of all MAKE_MARKER ids, and an empty-corpus campaign in thorough; "
             "oracle inside the target: NULL => sf_error(NULL) != 0 and a message; handle => 1 <= channels <= 1024, samplerate >= 1, frames >= 0, sections >= 1, container and encoding among the public constants; every read count <= request; ASan + bounds on exact-size caller buffers for all four read types, sf_read_raw, strings, every GET/CALC command, SF_CUES_VAR(1,2,3,100), chunk iteration with exact and short buffers; invariant hook after every call; per-call I/O budget 2000000 + 100 callbacks per input byte (virtual I/O), 10 s alarm per cell (a candidate only: reported after three replays under a 45 s limit) / libFuzzer -timeout=25 for CPU-bound loops; LSan per group; "
-            "non-trivial = the open succeeded; distinct = one per enumerated cell (stage 0) / corpus unit (stage 1)",
+            "64-bit fields of W64 / CAF / RF64 seeds set to six overflow-prone constants in both byte orders through each of the three routes (set8); non-trivial = the open succeeded; distinct = one per enumerated cell (stage 0) / corpus unit (stage 1)",
     "assumptions": BASE_ASSUME + ["negative read returns are counted (class negative_read_return) but not judged: the statement bounds time and memory accesses, not return conventions",
                                   "allocator_may_return_null=1: a hostile size that makes malloc fail must be handled by the library, a size that malloc can satisfy lazily is only caught through the work it causes",
                                   "timeout-/crash-/leak- artifacts count only when they reproduce three times in the ASan sweep binary; oom- and slow-unit- artifacts are load noise and never count",
